@@ -6,6 +6,9 @@ import "math"
 // (away from kinks, ties, poles and domain boundaries). Cases where it is false
 // are skipped and counted by gradient checks, never judged.
 func Differentiable(op Op, in []*T, out *T) bool {
+	if IsComposite(op.K) && !compositeDifferentiable(op, in) {
+		return false
+	}
 	switch op.K {
 	case "ElMax", "ElMin":
 		for i := range in[0].V {
@@ -98,6 +101,9 @@ func powDeriv(x, a float64) float64 {
 // reduction over broadcast copies is a mean instead of a sum (the alternative
 // model used only to recognise the listed known finding).
 func VJP(op Op, in []*T, out *T, gy *T, avg bool) []*T {
+	if IsComposite(op.K) {
+		return compositeVJP(op, in, out, gy)
+	}
 	x := in[0]
 	switch op.K {
 	case "Scale":
@@ -134,7 +140,7 @@ func VJP(op Op, in []*T, out *T, gy *T, avg bool) []*T {
 			ga = Zip(gy, b, func(g, v float64) float64 { return g / v })
 			gb = New(out.Shape)
 			for i := range gb.V {
-				gb.V[i] = -gy.V[i] * a.V[i] / (b.V[i] * b.V[i])
+				gb.V[i] = -gy.V[i] * (a.V[i] / b.V[i]) / b.V[i] // no squaring of the divisor: stays finite up to |b| ~ 1e308
 			}
 		}
 		return []*T{UnBroadcast(ga, in[0].Shape, avg), UnBroadcast(gb, in[1].Shape, avg)}
